@@ -157,6 +157,11 @@ Proof.
   rewrite E'. rewrite !lenN_app, len_u16, lenN_takeN, lenN_dropN by lia. lia.
 Qed.
 
+Lemma put_u16_ok b off v : off + 2 <= lenN b -> exists b', put_u16 b off v = Ok b'.
+Proof.
+  intros H. unfold put_u16. replace (off + 2 <=? lenN b) with true by (symmetry; now apply N.leb_le). eauto.
+Qed.
+
 Definition sig_pre : bytes := [0] ++ u16 TypeSIG ++ u16 255 ++ u32 0.   (* owner . type class TTL *)
 
 Lemma sig_rr_hdr_split L : sig_rr_hdr L = sig_pre ++ u16 L.
@@ -195,7 +200,7 @@ Section SignFacts.
         with ((mbuf ++ sig_pre) ++ u16 (lenN (sig_rdata r)) ++ (sig_rdata r ++ sg)) in H
         by (rewrite <- !app_assoc; reflexivity).
       replace (lenN mbuf + 1 + 2 + 2 + 4) with (lenN (mbuf ++ sig_pre)) in H
-        by (rewrite lenN_app; reflexivity).
+        by (rewrite lenN_app; change (lenN sig_pre) with 9; lia).
       rewrite be_at_mid in H. cbn [bind] in H.
       rewrite put_u16_mid in H. cbn [bind] in H.
       unfold mbuf in H. rewrite <- !app_assoc in H.
@@ -229,16 +234,12 @@ Section SignFacts.
     assert (Lr : 11 <= lenN (sig_rr_wire r)) by (unfold sig_rr_wire, sig_rr_hdr; lens; lia).
     assert (Lo : lenN (mbuf ++ sig_rr_wire r ++ sg) = lenN mbuf + lenN (sig_rr_wire r) + lenN sg) by (lens; lia).
     destruct (be_at_ok 2 (mbuf ++ sig_rr_wire r ++ sg) (lenN mbuf + 1 + 2 + 2 + 4)) as [rdlen ->]; [lia|].
-    cbn [bind]. unfold put_u16 at 2.
-    replace (lenN mbuf + 1 + 2 + 2 + 4 + 2 <=? lenN (mbuf ++ sig_rr_wire r ++ sg)) with true
-      by (symmetry; apply N.leb_le; lia).
     cbn [bind].
-    set (o1 := takeN _ _ ++ u16 _ ++ dropN _ _).
-    assert (L1 : lenN o1 = lenN (mbuf ++ sig_rr_wire r ++ sg)).
-    { unfold o1. lens. rewrite lenN_takeN, lenN_dropN by lia. lia. }
+    destruct (put_u16_ok (mbuf ++ sig_rr_wire r ++ sg) (lenN mbuf + 1 + 2 + 2 + 4)
+                         ((rdlen + lenN sg) mod 65536)) as [o1 P1]; [lia|].
+    rewrite P1. cbn [bind]. pose proof (put_u16_len _ _ _ _ P1) as L1.
     destruct (be_at_ok 2 o1 10) as [adc ->]; [lia|]. cbn [bind].
-    unfold put_u16. replace (10 + 2 <=? lenN o1) with true by (symmetry; apply N.leb_le; lia).
-    eauto.
+    destruct (put_u16_ok o1 10 ((adc + 1) mod 65536)) as [o2 P2]; [lia|]. eauto.
   Qed.
 End SignFacts.
 
@@ -252,3 +253,278 @@ Proof.
   replace (clen + lenN (sig_rr_wire r) <? ulen + 1) with true by (symmetry; apply N.ltb_lt; lia).
   reflexivity.
 Qed.
+
+(* ---------- SIG.Verify's raw skipping agrees with strict framing ---------- *)
+Lemma unpack_question_skip msg off o :
+  unpack_question true msg off = Ok o ->
+  exists ls on, unpack_name msg off = Ok (ls, on) /\ o = on + 4 /\ o <= lenN msg /\ off < lenN msg.
+Proof.
+  unfold unpack_question. cbn [negb andb]. intros H.
+  apply bind_ok in H. destruct H as ([ls on] & U & H).
+  apply bind_ok in H. destruct H as ([ty o2] & R1 & H).
+  apply bind_ok in H. destruct H as ([cl o3] & R2 & H).
+  apply rd_bounds in R1. apply rd_bounds in R2. pose proof (unpack_name_bounds _ _ _ _ U).
+  exists ls, on. inversion H. repeat split; try assumption; lia.
+Qed.
+
+Section Skip.
+  Variable chk : N -> bytes -> N -> res N.
+
+  Lemma unpack_rr_skip msg off r o :
+    unpack_rr chk true msg off = Ok (r, o) ->
+    exists ls on, unpack_name msg off = Ok (ls, on) /\ on + 10 <= lenN msg /\
+                  o = on + 8 + 2 + be (get msg (on + 8) 2) 0 /\ o <= lenN msg /\ off < lenN msg.
+  Proof.
+    unfold unpack_rr. cbn [negb andb]. intros H.
+    apply bind_ok in H. destruct H as ([ls on] & U & H).
+    apply bind_ok in H. destruct H as ([ty o2] & R1 & H).
+    apply bind_ok in H. destruct H as ([cl o3] & R2 & H).
+    apply bind_ok in H. destruct H as ([ttl o4] & R3 & H).
+    apply bind_ok in H. destruct H as ([rdlen o5] & R4 & H).
+    pose proof (unpack_name_bounds _ _ _ _ U).
+    destruct (rd_bounds _ _ _ _ _ R1) as [E1 _]. destruct (rd_bounds _ _ _ _ _ R2) as [E2 _].
+    destruct (rd_bounds _ _ _ _ _ R3) as [E3 _]. destruct (rd_bounds _ _ _ _ _ R4) as [E4 B4].
+    assert (Eo4 : o4 = on + 8) by lia. rewrite Eo4 in R4.
+    assert (Erd : rdlen = be (get msg (on + 8) 2) 0).
+    { unfold rd in R4. destruct (lenN msg <? on + 8 + 2); [discriminate|]. now inversion R4. }
+    destruct (lenN msg <? o5 + rdlen) eqn:E; [discriminate|]. apply N.ltb_ge in E.
+    exists ls, on. split; [assumption|]. split; [lia|].
+    assert (Ho : o = o5 + rdlen).
+    { destruct (rdlen =? 0) eqn:E0.
+      - apply N.eqb_eq in E0. inversion H. lia.
+      - destruct (ty =? TypeTSIG).
+        + apply bind_ok in H. destruct H as ([t o'] & _ & H).
+          destruct (o' =? o5 + rdlen) eqn:Eo; [|discriminate]. apply N.eqb_eq in Eo. inversion H. lia.
+        + apply bind_ok in H. destruct H as (o' & _ & H).
+          destruct (o' =? o5 + rdlen) eqn:Eo; [|discriminate]. apply N.eqb_eq in Eo. inversion H. lia. }
+    split; [lia|]. split; lia.
+  Qed.
+
+  Lemma q_loop_strict n : forall msg s off o,
+    skip_questions n true msg off = Ok o -> q_loop n (msg ++ s) off = Ok o.
+  Proof.
+    induction n as [|n IH]; intros msg s off o H; [exact H|].
+    rewrite skip_questions_S in H. apply bind_ok in H. destruct H as (o1 & Q & H).
+    apply unpack_question_skip in Q. destruct Q as (ls & on & U & -> & B & Boff).
+    rewrite q_loop_S, lenN_app.
+    replace (lenN msg + lenN s <=? off) with false by (symmetry; apply N.leb_gt; lia).
+    rewrite (unpack_name_app _ s _ _ U). cbn [bind]. now apply IH.
+  Qed.
+
+  Lemma rr_step msg s off r o n :
+    unpack_rr chk true msg off = Ok (r, o) ->
+    rr_loop (S n) (msg ++ s) off = rr_loop n (msg ++ s) o.
+  Proof.
+    intros U. apply unpack_rr_skip in U. destruct U as (ls & on & U & B1 & -> & B2 & Boff).
+    rewrite rr_loop_S, lenN_app.
+    replace (lenN msg + lenN s <=? off) with false by (symmetry; apply N.leb_gt; lia).
+    rewrite (unpack_name_app _ s _ _ U). cbn [bind].
+    replace (lenN msg + lenN s <=? on + 8 + 1) with false by (symmetry; apply N.leb_gt; lia).
+    unfold be_at. rewrite lenN_app.
+    replace (on + 8 + 2 <=? lenN msg + lenN s) with true by (symmetry; apply N.leb_le; lia).
+    cbn [bind]. rewrite get_app_l by lia. reflexivity.
+  Qed.
+
+  Lemma rr_loop_strict n : forall msg s off o,
+    skip_rrs chk n true msg off = Ok o -> rr_loop n (msg ++ s) off = Ok o.
+  Proof.
+    induction n as [|n IH]; intros msg s off o H; [exact H|].
+    rewrite skip_rrs_S in H. apply bind_ok in H. destruct H as ([r o1] & U & H).
+    rewrite (rr_step _ s _ _ _ n U).
+    destruct (unpack_rr_ext chk true _ [] _ _ _ U) as [_ B].
+    replace (o1 =? off) with false in H by (symmetry; apply N.eqb_neq; lia).
+    now apply IH.
+  Qed.
+
+  Lemma rr_loop_plain n : forall msg s off o,
+    skip_plain chk n msg off = Ok o -> rr_loop n (msg ++ s) off = Ok o.
+  Proof.
+    induction n as [|n IH]; intros msg s off o H; [exact H|].
+    rewrite skip_plain_S in H. apply bind_ok in H. destruct H as ([r o1] & U & H).
+    rewrite (rr_step _ s _ _ _ n U).
+    destruct (rv_type r =? TypeTSIG); [discriminate|]. now apply IH.
+  Qed.
+End Skip.
+
+Lemma rr_loop_end n buf off : lenN buf <= off -> rr_loop n buf off = Ok off.
+Proof.
+  intros H. destruct n; [reflexivity|]. rewrite rr_loop_S.
+  replace (lenN buf <=? off) with true by (symmetry; now apply N.leb_le). reflexivity.
+Qed.
+
+Lemma rr_loop_add a : forall b buf off,
+  rr_loop (a + b) buf off = bind (rr_loop a buf off) (fun o => rr_loop b buf o).
+Proof.
+  induction a as [|a IH]; intros b buf off; [reflexivity|].
+  change (S a + b)%nat with (S (a + b)). rewrite !rr_loop_S.
+  destruct (lenN buf <=? off) eqn:E.
+  - cbn [bind]. apply N.leb_le in E. now rewrite rr_loop_end.
+  - destruct (unpack_name buf off) as [[ls on]| | |]; cbn [bind]; try reflexivity.
+    destruct (lenN buf <=? on + 8 + 1); [apply IH|].
+    destruct (be_at 2 buf (on + 8)); cbn [bind]; try reflexivity. apply IH.
+Qed.
+
+(* ---------- a signed message verifies ---------- *)
+Lemma be_at_view n (m : bytes) off enc rest :
+  off <= lenN m -> dropN off m = enc ++ rest -> lenN enc = n ->
+  be_at n m off = Ok (be enc 0) /\ off + n <= lenN m /\ dropN (off + n) m = rest.
+Proof.
+  intros Hoff Hd Hn. destruct (rd_view n m off enc rest Hoff Hd Hn) as (R & B & D).
+  split; [|split; assumption]. unfold be_at.
+  replace (off + n <=? lenN m) with true by (symmetry; now apply N.leb_le).
+  unfold rd in R. destruct (lenN m <? off + n); [discriminate|]. congruence.
+Qed.
+
+Lemma slice_view (m : bytes) off x rest :
+  off <= lenN m -> dropN off m = x ++ rest -> slice m off (off + lenN x) = Ok x.
+Proof.
+  intros Hoff Hd. unfold slice.
+  assert (L : lenN m - off = lenN x + lenN rest) by (rewrite <- lenN_dropN, Hd; apply lenN_app).
+  replace ((off <=? off + lenN x) && (off + lenN x <=? lenN m)) with true
+    by (symmetry; apply andb_true_intro; split; apply N.leb_le; lia).
+  replace (off + lenN x - off) with (lenN x) by lia. rewrite Hd. now rewrite takeN_app_exact.
+Qed.
+
+Lemma be_qd_wire h rest : be_at 2 (hdr_wire h ++ rest) 4 = Ok (h_qd h mod 65536).
+Proof.
+  unfold be_at. rewrite lenN_app, len_hdr_wire.
+  replace (4 + 2 <=? 12 + lenN rest) with true by (symmetry; apply N.leb_le; lia).
+  destruct h as [id bits qd an ns ar]. f_equal.
+  change (get (hdr_wire (Build_hdr id bits qd an ns ar) ++ rest) 4 2) with (u16 qd). apply be_u16.
+Qed.
+Lemma be_an_wire h rest : be_at 2 (hdr_wire h ++ rest) 6 = Ok (h_an h mod 65536).
+Proof.
+  unfold be_at. rewrite lenN_app, len_hdr_wire.
+  replace (6 + 2 <=? 12 + lenN rest) with true by (symmetry; apply N.leb_le; lia).
+  destruct h as [id bits qd an ns ar]. f_equal.
+  change (get (hdr_wire (Build_hdr id bits qd an ns ar) ++ rest) 6 2) with (u16 an). apply be_u16.
+Qed.
+Lemma be_ns_wire h rest : be_at 2 (hdr_wire h ++ rest) 8 = Ok (h_ns h mod 65536).
+Proof.
+  unfold be_at. rewrite lenN_app, len_hdr_wire.
+  replace (8 + 2 <=? 12 + lenN rest) with true by (symmetry; apply N.leb_le; lia).
+  destruct h as [id bits qd an ns ar]. f_equal.
+  change (get (hdr_wire (Build_hdr id bits qd an ns ar) ++ rest) 8 2) with (u16 ns). apply be_u16.
+Qed.
+
+(* what SIG.Sign hashed, for a message with fewer than 256 additional records *)
+Lemma hdr_split h : h_ar h < 256 ->
+  hdr_wire h = takeN 10 (hdr_wire h) ++ [0; h_ar h mod 256].
+Proof.
+  intros H. destruct h as [id bits qd an ns ar]. cbn [h_ar] in H.
+  unfold hdr_wire, u16. cbn [h_id h_bits h_qd h_an h_ns h_ar app takeN N.to_nat Pos.to_nat Pos.iter_op Nat.add firstn].
+  do 10 f_equal. replace ((ar / 256) mod 256) with 0 by lia. reflexivity.
+Qed.
+
+Section RoundTrip.
+  Variable ss : N -> bytes -> res bytes.
+  Variable sc : N -> bytes -> bytes -> res unit.
+  Variable chk : N -> bytes -> N -> res N.
+
+  Theorem sign_verify_ok h body r kname clen ulen out now :
+    hdr_ok h -> h_an h + h_ns h + h_ar h + 1 < 65536 -> h_ar h < 256 -> wf_body chk h body ->
+    s_expire r < 4294967296 -> s_incept r < 4294967296 -> s_keytag r < 65536 ->
+    (forall d s, ss (s_alg r) d = Ok s -> sc (s_alg r) d s = Ok tt) ->
+    sig0_sign ss clen ulen (hdr_wire h ++ body) r = Ok out ->
+    s_incept r <= now <= s_expire r -> name_equal (s_signer r) kname = true ->
+    sig0_verify sc r kname out now = Ok tt.
+  Proof.
+    intros Hh Hsum Har Hwf Bx Bi Bk Hsound Hsign Hwin Hname.
+    apply sign_spec in Hsign.
+    destruct Hsign as (sg & Hk & Hv & Hhash & _ & Hss & Hlen & Eout).
+    destruct Hh as (H1 & H2 & H3 & H4 & H5 & H6).
+    replace ((h_ar h mod 65536 + 1) mod 65536) with (h_ar h + 1) in Eout by lia.
+    set (h' := set_ar h (h_ar h + 1)) in *.
+    set (L := (lenN (sig_rdata r) mod 65536 + lenN sg) mod 65536) in *.
+    set (M := hdr_wire h' ++ body).
+    set (S := sig_rr_hdr L ++ sig_rdata r ++ sg).
+    assert (Eo : out = M ++ S) by (unfold M, S; rewrite Eout, <- app_assoc; reflexivity).
+    assert (LM : lenN M = 12 + lenN body) by (unfold M; rewrite lenN_app; reflexivity).
+    assert (LS : lenN S = 11 + lenN (sig_rdata r) + lenN sg)
+      by (unfold S, sig_rr_hdr; lens; lia).
+    assert (Lrd : lenN (sig_rdata r) = 18 + lenN (wire_name (s_signer r)))
+      by (unfold sig_rdata, u8; lens; lia).
+    unfold sig0_verify. rewrite Hk, Hhash. cbn [negb].
+    rewrite Eout. rewrite be_qd_wire, be_an_wire, be_ns_wire, be_ar_wire. cbn [bind].
+    rewrite <- Eout, Eo.
+    replace (h_qd h' mod 65536) with (h_qd h) by (unfold h'; cbn; lia).
+    replace (h_an h' mod 65536) with (h_an h) by (unfold h'; cbn; lia).
+    replace (h_ns h' mod 65536) with (h_ns h) by (unfold h'; cbn; lia).
+    replace (h_ar h' mod 65536) with (h_ar h + 1) by (unfold h'; cbn; lia).
+    specialize (Hwf (hdr_wire h') (len_hdr_wire h')). fold M in Hwf. unfold walk_strict in Hwf.
+    apply bind_ok in Hwf. destruct Hwf as (o1 & W1 & Hwf).
+    apply bind_ok in Hwf. destruct Hwf as (o2 & W2 & Hwf).
+    apply bind_ok in Hwf. destruct Hwf as (o3 & W3 & W4).
+    rewrite (q_loop_strict chk _ _ S _ _ W1). cbn [bind].
+    replace (N.to_nat ((h_an h + h_ns h + (h_ar h + 1)) mod 65536 - 1))
+      with (N.to_nat (h_an h) + (N.to_nat (h_ns h) + N.to_nat (h_ar h)))%nat by lia.
+    rewrite rr_loop_add, (rr_loop_strict chk _ _ S _ _ W2). cbn [bind].
+    rewrite rr_loop_add, (rr_loop_strict chk _ _ S _ _ W3). cbn [bind].
+    rewrite (rr_loop_plain chk _ _ S _ _ W4). cbn [bind].
+    set (be0 := 12 + lenN body).
+    assert (Lout : lenN (M ++ S) = be0 + lenN S) by (rewrite lenN_app, LM; reflexivity).
+    replace (lenN (M ++ S) <=? be0) with false by (symmetry; apply N.leb_gt; lia).
+    (* the SIG record at be0 *)
+    assert (B0 : be0 <= lenN (M ++ S)) by lia.
+    assert (D0 : dropN be0 (M ++ S) =
+                 wire_name [] ++ (u16 TypeSIG ++ u16 255 ++ u32 0 ++ u16 L) ++ sig_rdata r ++ sg).
+    { unfold be0. rewrite <- LM, dropN_app_exact. unfold S, sig_rr_hdr. rewrite <- !app_assoc. reflexivity. }
+    destruct (name_view _ _ [] _ B0 D0 eq_refl) as (U1 & B1 & D1). rewrite U1. cbn [bind].
+    change (lenN (wire_name [])) with 1 in *.
+    assert (D2 : dropN (be0 + 1 + 10) (M ++ S) = sig_rdata r ++ sg).
+    { rewrite dropN_add, D1. change 10 with (lenN (u16 TypeSIG ++ u16 255 ++ u32 0 ++ u16 L)).
+      apply dropN_app_exact. }
+    replace (lenN (M ++ S) <=? be0 + 1 + 10 + 8 + 8) with false by (symmetry; apply N.leb_gt; lia).
+    assert (D3 : dropN (be0 + 1 + 10 + 8) (M ++ S) =
+                 u32 (s_expire r) ++ u32 (s_incept r) ++ u16 (s_keytag r) ++ wire_name (s_signer r) ++ sg).
+    { rewrite dropN_add, D2. unfold sig_rdata.
+      replace ((u16 0 ++ u8 (s_alg r) ++ u8 0 ++ u32 0 ++ u32 (s_expire r) ++ u32 (s_incept r) ++
+                u16 (s_keytag r) ++ wire_name (s_signer r)) ++ sg)
+        with ((u16 0 ++ u8 (s_alg r) ++ u8 0 ++ u32 0) ++ u32 (s_expire r) ++ u32 (s_incept r) ++
+              u16 (s_keytag r) ++ wire_name (s_signer r) ++ sg) by (rewrite <- !app_assoc; reflexivity).
+      change 8 with (lenN (u16 0 ++ u8 (s_alg r) ++ u8 0 ++ u32 0)). apply dropN_app_exact. }
+    assert (B3 : be0 + 1 + 10 + 8 <= lenN (M ++ S)) by lia.
+    destruct (be_at_view 4 _ _ _ _ B3 D3 (len_u32 _)) as (R4 & B4 & D4). rewrite R4. cbn [bind].
+    destruct (be_at_view 4 _ _ _ _ B4 D4 (len_u32 _)) as (R5 & B5 & D5). rewrite R5. cbn [bind].
+    rewrite !be_u32, !N.mod_small by assumption.
+    replace ((now <? s_incept r) || (s_expire r <? now)) with false
+      by (symmetry; apply orb_false_intro; [apply N.ltb_ge|apply N.ltb_ge]; lia).
+    assert (D6 : dropN (be0 + 1 + 10 + 8 + 8 + 2) (M ++ S) = wire_name (s_signer r) ++ sg).
+    { replace (be0 + 1 + 10 + 8 + 8 + 2) with (be0 + 1 + 10 + 8 + 4 + 4 + 2) by lia.
+      rewrite dropN_add, D5. change 2 with (lenN (u16 (s_keytag r))). apply dropN_app_exact. }
+    assert (B6 : be0 + 1 + 10 + 8 + 8 + 2 <= lenN (M ++ S)) by lia.
+    destruct (name_view _ _ _ _ B6 D6 Hv) as (U7 & B7 & D7). rewrite U7. cbn [bind].
+    rewrite Hname. cbn [negb].
+    (* the digest input *)
+    set (sigstart := be0 + 1 + 10) in *.
+    set (sigend := sigstart + 8 + 8 + 2 + lenN (wire_name (s_signer r))) in *.
+    assert (Esig : sigend = sigstart + lenN (sig_rdata r)) by (unfold sigend; lia).
+    unfold verify_data.
+    assert (Bss : sigstart <= lenN (M ++ S)) by (unfold sigstart; lia).
+    rewrite Esig, (slice_view _ _ _ _ Bss D2). cbn [bind].
+    assert (S10 : slice (M ++ S) 0 10 = Ok (takeN 10 (hdr_wire h'))).
+    { unfold slice. replace ((0 <=? 10) && (10 <=? lenN (M ++ S))) with true
+        by (symmetry; apply andb_true_intro; split; apply N.leb_le; lia).
+      rewrite N.sub_0_r, dropN_0. unfold M. rewrite <- !app_assoc.
+      rewrite takeN_app_le by (rewrite len_hdr_wire; lia). reflexivity. }
+    rewrite S10. cbn [bind].
+    assert (Sb : slice (M ++ S) 12 be0 = Ok body).
+    { assert (D12 : dropN 12 (M ++ S) = body ++ S).
+      { unfold M. rewrite <- app_assoc. change 12 with (lenN (hdr_wire h')). apply dropN_app_exact. }
+      unfold be0. apply (slice_view _ _ _ S); [lia|exact D12]. }
+    rewrite Sb. cbn [bind].
+    assert (Ssg : slice (M ++ S) (sigstart + lenN (sig_rdata r)) (lenN (M ++ S)) = Ok sg).
+    { assert (Dg : dropN (sigstart + lenN (sig_rdata r)) (M ++ S) = sg ++ []).
+      { rewrite dropN_add, D2, dropN_app_exact. now rewrite app_nil_r. }
+      replace (lenN (M ++ S)) with (sigstart + lenN (sig_rdata r) + lenN sg) at 2 by (unfold sigstart; lia).
+      apply (slice_view _ _ _ []); [unfold sigstart; lia|exact Dg]. }
+    rewrite Ssg. cbn [bind].
+    apply Hsound. rewrite <- Hss. f_equal. f_equal.
+    (* hashed by Verify = hashed by Sign *)
+    replace (((h_ar h + 1 + 65535) mod 65536 * 256) mod 65536 mod 256) with 0 by lia.
+    replace ((h_ar h + 1 + 65535) mod 65536 mod 256) with (h_ar h mod 256) by lia.
+    rewrite (hdr_split h Har) at 1.
+    replace (takeN 10 (hdr_wire h')) with (takeN 10 (hdr_wire h)) by (destruct h; reflexivity).
+    rewrite <- !app_assoc. reflexivity.
+  Qed.
+End RoundTrip.
